@@ -33,9 +33,11 @@ Poss == CASE Domain = "adversarial" -> {"c", "o", "far", "negfar"}
           [] OTHER -> {"c", "same"}
 Sizes == IF Domain = "degenerate" THEN {"mid"} ELSE {"min", "edge", "mid", "max"}
 
-FirstObjs == {[k |-> q[1], t |-> q[2], p |-> q[3], z |-> q[4]] : q \in Kinds \X Times \X Poss \X Sizes}
+(* "stat": a stationary slider (zero length) with 20 spans - all of its nested objects share one timestamp and one position *)
+FirstObjs == {[k |-> q[1], t |-> q[2], p |-> q[3], z |-> q[4]] : q \in {r \in Kinds \X Times \X Poss \X (Sizes \cup {"stat"}) : r[4] = "stat" => r[1] = "S"}}
 NextObjs == {[k |-> q[1], t |-> q[2], p |-> q[3], z |-> q[4]] :
-               q \in Kinds \X Deltas \X (IF Rich THEN Poss ELSE {"c"}) \X (IF Rich THEN Sizes ELSE (({"edge", "max"} \cap Sizes) \cup {"mid"}))}
+               q \in {r \in Kinds \X Deltas \X (IF Rich THEN Poss ELSE {"c"}) \X ((IF Rich THEN Sizes ELSE (({"edge", "max"} \cap Sizes) \cup {"mid"})) \cup {"stat"}) :
+                         r[4] = "stat" => r[1] = "S"}}
 
 Globals == {[bl |-> q[1], sv |-> q[2], tr |-> q[3], ver |-> q[4], diff |-> q[5]] :
               q \in (IF Domain = "degenerate" THEN {"b500"} ELSE IF Domain = "realistic" THEN (IF Rich THEN {"b300", "b500", "b1000"} ELSE {"b500"})
